@@ -144,6 +144,9 @@ fn row<L: Letter>(r: &Value, rep: &mut Report) {
     if (bx == by) != veq {
         rep.bad("ArcBorrow ==: equal values in distinct allocations compare unequal (pointer comparison)", format!("{}: ArcBorrow == is {}, values == is {}", pair, bx == by, veq));
     }
+    if (bx != by) == (bx == by) {
+        rep.bad("ArcBorrow !=: not the negation of ==", pair.clone());
+    }
     if format!("{:?}", ax) != format!("{:?}", vx) {
         rep.bad("Arc Debug: differs from the value's", pair.clone());
     }
@@ -196,6 +199,17 @@ fn sized_rows<L: Letter>(rep: &mut Report) {
                     if f == s || s == f || f2 == s2 {
                         rep.bad("ArcUnion ==: unions holding different variants compare equal", pair.clone());
                     }
+                    #[allow(clippy::nonminimal_bool)]
+                    if !(f != s) || !(s != f) || !(f2 != s2) {
+                        rep.bad("ArcUnion !=: unions holding different variants do not compare unequal", pair.clone());
+                    }
+                    // != is the negation of == for every handle kind, whatever == means for it
+                    if (ux != uy) == (ux == uy) || (wx != wy) == (wx == wy) {
+                        rep.bad("ArcUnion !=: not the negation of ==", pair.clone());
+                    }
+                    if (bx != by) == (bx == by) {
+                        rep.bad("ArcBorrow !=: not the negation of ==", pair.clone());
+                    }
                 }
             }
             // ---- same allocation
@@ -213,6 +227,17 @@ fn sized_rows<L: Letter>(rep: &mut Report) {
             let (o1, o2) = (Arc::into_raw_offset(ax.clone()), Arc::into_raw_offset(ax.clone()));
             if (o1 == o2) != self_eq {
                 rep.bad("OffsetArc ==: differs from the values (same allocation)", format!("{:?}", sx));
+            }
+            if (o1 != o2) == (o1 == o2) {
+                rep.bad("OffsetArc !=: not the negation of == (same allocation)", format!("{:?}", sx));
+            }
+            let (u1, u2): (ArcUnion<(L, L), u8>, ArcUnion<(L, L), u8>) = (ArcUnion::from_first(ax.clone()), ArcUnion::from_first(ax.clone()));
+            if (u1 != u2) == (u1 == u2) {
+                rep.bad("ArcUnion !=: not the negation of == (same allocation)", format!("{:?}", sx));
+            }
+            let (b1, b2) = (ax.borrow_arc(), ax2.borrow_arc());
+            if (b1 != b2) == (b1 == b2) {
+                rep.bad("ArcBorrow !=: not the negation of == (same allocation)", format!("{:?}", sx));
             }
         }
     }
